@@ -24,10 +24,14 @@ PROPS = {
              '(every block: CheckSign, IsExpire, Check, duplicate scan, tx lookup by hash, each doubled by the harness\'s own record '
              'of what it signed and the model\'s expiry arithmetic on the real heights and times) and the reply, best chain, pool '
              'and duplicate lookups are compared with the model. Recorded random walks over more ids and longer histories are '
-             'validated by the trace specification.',
-        note='Mechanism model; error codes abstracted to accept / reject; order inside a block not compared; node restarts are not part of the '
-             'explored histories (the duplicate cache for height-bounded transactions is rebuilt only at start-up: seeded change C28-1, a '
-             'narrowed rebuild window, is therefore not caught); reorganisations one '
+             'validated by the trace specification. Histories with the start-up cache rebuild (InitCache) interleaved are exported '
+             'exhaustively (SpecR) and replayed the same way.',
+        note='Mechanism model; error codes abstracted to accept / reject; order inside a block not compared; a node restart is represented by '
+             'its only effect on what this property reads - the start-up rebuild of the volatile lookup caches from the database '
+             '(action Reinit = BlockChain.InitCache called on the idle node; the abstract state is the database, so every duplicate '
+             'lookup must answer after it as before), explored exhaustively over 5-event histories with a 3-block window and the '
+             'receivers\' block cache cut to 2 blocks so that the two rebuild ranges differ (catches seeded change C28-1, a narrowed '
+             'rebuild window); a full process restart on the same data directory is explored by C29 only; reorganisations one '
              'block deep (after deeper ones the pool\'s re-admission depends on bus scheduling, which this property does not '
              'constrain); no transaction groups; TxHeight window shortened to LO+HI = 2..3 blocks through the node configuration '
              '(lowAllowPackHeight / highAllowPackHeight) so that both window edges lie inside the enumerated histories; time-bounded '
@@ -52,7 +56,9 @@ def _cfg(ctx, d, base, name, append=None, **repl):
 def run(ctx):
     q = ctx.tier == 'quick'
     rnd = random.Random(ctx.seed)
-    ctx.rule = ('behaviours = every history of 3 events over 2 ids with a twin (TLC exhaustive export, sampled in the quick tier) plus '
+    ctx.rule = ('behaviours = every history of 3 events over 2 ids with a twin (TLC exhaustive export, sampled in the quick tier), every 5-event '
+                'history over a window transaction and two fillers with the start-up cache rebuild interleaved (sampled; all sampled ones that '
+                'rebuild with the window transaction three blocks deep first) plus '
                 'TLC-simulated histories of 6 events over 4 ids under 4 attribute profiles, each replayed on a fresh real node with the '
                 'property evaluated on the real chain after every step; non-trivial = the history offers a duplicate, expired, '
                 'statically invalid or mis-signed transaction through either path (a Submit / Extend / Fork the model rejects, or a '
@@ -106,6 +112,26 @@ def run(ctx):
         keeph = twice[:70 if q else 390] + other[:20 if q else 300]
         ctx.extra['replayed_window_histories'] = len(keeph)
         ctx.replay(b, keeph, opts=dict(twin='sig', salt=5), par=6, timeout=14400)
+        # --- exhaustive histories with the start-up cache rebuild (BlockChain.InitCache) interleaved: window of 3 blocks, block cache
+        # of the receivers cut to 2 blocks (defCacheSize = 1) so that the two rebuild loops of InitCache cover different ranges
+        allr = ctx.tlc_genall('ChainTx_AllR', 'ChainTx_AllR.cfg', stage=d, timeout=3600)
+        ctx.extra['exhaustive_histories_cache_rebuild'] = len(allr)
+        def _late(x):
+            # a rebuild after the window transaction was put on the chain and buried under two more blocks
+            st = [s for s in x['steps'] if s.get('op') != 'Cfg']
+            for i, s in enumerate(st):
+                if s.get('op') == 'Reinit' and len(s['chk']['best']) >= 3 and [[1, 'g']] == s['chk']['best'][-3]:
+                    return True
+            return False
+        late = [x for x in allr if _late(x)]
+        some = [x for x in allr if not _late(x) and any(s.get('op') == 'Reinit' for s in x['steps'])]
+        if not late:
+            raise vlib.Broken('vacuous: no exported history rebuilds the caches with the window transaction three blocks deep')
+        rnd.shuffle(late)
+        rnd.shuffle(some)
+        keepr = late[:40 if q else 400] + some[:40 if q else 600]
+        ctx.extra['replayed_cache_rebuild_histories'] = len(keepr)
+        ctx.replay(b, keepr, opts=dict(twin='sig', salt=6, dcs=1), par=6, timeout=14400)
         # --- simulated histories: 4 ids, 4 profiles, 6 events
         sims = ctx.tlc_sim('ChainTx_MC', 'ChainTx_Gen.cfg', num=120 if q else 1200, depth=7, stage=d, timeout=3600)
         third = max(1, len(sims) // 3)
